@@ -1224,18 +1224,42 @@ class BuiltinMixin:
         rt = repl.t if isinstance(repl, VStr) else z3.StringVal("<fn>")
         return [(st, VStr(f(rt, text.t)))]
 
+    def _regex_concrete(self, rx, how, subject):
+        """a module-level `re.compile(<constant pattern>)` applied to a CONCRETE text is decided
+        by the real `re` module (None if the pattern or the text is not constant)"""
+        t = z3.simplify(subject)
+        if not z3.is_string_value(t):
+            return None
+        try:
+            import re as _re
+            call = ast.parse(rx.py[3], mode="eval").body
+            from .flow import const_eval
+            mod = load.get_module(rx.py[1])
+            pat = const_eval(mod, call.args[0])
+            flags = 0
+            for a in call.args[1:]:
+                flags |= int(eval(ast.unparse(a), {"re": _re}))  # noqa: S307 - flag constants such as re.DOTALL
+            return getattr(_re.compile(pat, flags), how)(t.as_string()) is not None
+        except Exception:  # noqa: BLE001
+            return None
+
+    def _regex_pred(self, st, rx, how, args):
+        subject = self._s(args[0])
+        known = self._regex_concrete(rx, how, subject)
+        if known is not None:
+            return [(st, VBool(z3.BoolVal(known)))]
+        # otherwise only its truth value is modelled (uninterpreted predicate of the text)
+        f = z3.Function(f"re_{how}$" + rx.py[2], S, B)
+        return [(st, VBool(f(subject)))]
+
     def m_regex_fullmatch(self, st, rx, args, kwargs):
-        f = z3.Function("re_fullmatch$" + rx.py[2], S, B)
-        return [(st, VBool(f(self._s(args[0]))))]
+        return self._regex_pred(st, rx, "fullmatch", args)
 
     def m_regex_search(self, st, rx, args, kwargs):
-        # only its truth value is modelled (uninterpreted predicate of the text)
-        f = z3.Function("re_search$" + rx.py[2], S, B)
-        return [(st, VBool(f(self._s(args[0]))))]
+        return self._regex_pred(st, rx, "search", args)
 
     def m_regex_match(self, st, rx, args, kwargs):
-        f = z3.Function("re_match$" + rx.py[2], S, B)
-        return [(st, VBool(f(self._s(args[0]))))]
+        return self._regex_pred(st, rx, "match", args)
 
     def _b64(self, st, args, name, decode):
         (v,) = args
